@@ -173,11 +173,16 @@ class SegwitChecker(SolutionChecker):
                 raise ScriptError("witness unexpected", errno.WITNESS_UNEXPECTED)
         else:
             witness_program = puzzle_script[2:]
-            if len(solution_stack) > 0:
-                err = (
-                    errno.WITNESS_MALLEATED_P2SH if is_p2sh else errno.WITNESS_MALLEATED
-                )
-                raise ScriptError("script sig is not blank on segwit input", err)
+            # BIP141: the scriptSig must be exactly empty (native) or exactly
+            # the canonical push of the witness program (P2SH)
+            if is_p2sh:
+                expected_script_sig = self.ScriptTools.compile_push_data_list([puzzle_script])  # type: ignore[attr-defined]
+                if tx_context.solution_script != expected_script_sig:
+                    raise ScriptError(
+                        "script sig is not the push of the witness program", errno.WITNESS_MALLEATED_P2SH
+                    )
+            elif len(tx_context.solution_script) > 0:
+                raise ScriptError("script sig is not blank on segwit input", errno.WITNESS_MALLEATED)
 
             for s in tx_context.witness_solution_stack:
                 if len(s) > self.VM.MAX_BLOB_LENGTH:  # type: ignore[attr-defined]
